@@ -1106,3 +1106,26 @@ Proof.
   { unfold t1. destruct (_ && _ && _); [apply spec_merge_fixed; assumption | exact H0]. }
   destruct (is_array_name t1 && fixed rt); [rewrite spec_fixed_type|]; exact H1.
 Qed.
+
+(* ---------- range operands (parseForStatement + parseStepRange) ---------- *)
+Lemma range_operands_spec ts :
+  forallb spec_ty ts = true -> range_operands_ok ts = range_operands_s (map erase ts).
+Proof.
+  destruct ts as [|t [|t2 [|t3 [|t4 r]]]]; simpl; intro H; try reflexivity.
+  - destruct t; simpl in *; try discriminate; reflexivity.
+  - destruct t; simpl in *; try discriminate; try reflexivity;
+      destruct t2; simpl in *; try discriminate; reflexivity.
+  - destruct t; simpl in *; try discriminate; try reflexivity;
+      destruct t2; simpl in *; try discriminate; try reflexivity;
+      destruct t3; simpl in *; try discriminate; reflexivity.
+  - destruct t; simpl in *; try discriminate; try reflexivity;
+      destruct t2; simpl in *; try discriminate; try reflexivity;
+      destruct t3; simpl in *; try discriminate; reflexivity.
+Qed.
+
+(* the range clause is accepted exactly for: one operand of an iterable type
+   (num, string, array, map), or two or three operands that are all num — for
+   every operand position and every type; four or more operands never *)
+Theorem range_operands_ok_iff ts :
+  forallb spec_ty ts = true -> (range_operands_ok ts = true <-> RangeOperands (map erase ts)).
+Proof. intro H. rewrite (range_operands_spec ts H). apply range_operands_s_iff. Qed.
